@@ -354,3 +354,6 @@ for _c in CHECKS.values():
             else:
                 _fl += ["-witness", "1"]
             _h["flags"] = _fl
+
+_quick("C02", "C02_many", "300 LockIds hold a key of unlimited capacity (beyond ~225 holders the per-key holder queue becomes a node queue with a LockId map); the oldest is released 1 / 100 / 223 / 225 / 227 / 254 / 256 / 258 / 290 times; a second unlock by the LockId released last is UNOWN_ERROR and changes nothing, the next oldest and the newest holders' own unlocks are accepted", ["-witness", "1"])
+_quick("C17", "C17_outoforder", "7..9 holders of a shared key (the inline part of the holder queue is full), one that is not the oldest released, 1..2 more holders taken (the queue compacts), everything released, wheel swept: counters back, no live manager", ["-witness", "4"])
